@@ -40,6 +40,9 @@ def run_histories(jobs: List[Dict[str, Any]], wd: Path, *, module: str = "harnes
                   stall: float = 25.0, nproc: int = NCPU) -> Tuple[List[List[Any]], Dict[str, Any]]:
     """Run all jobs (each with a unique "tid"); returns traces ordered like jobs + meta."""
     nproc = max(1, min(nproc, len(jobs)))
+    run_histories.calls = getattr(run_histories, "calls", 0) + 1  # type: ignore
+    wd = wd / f"hist_{run_histories.calls}"  # type: ignore
+    wd.mkdir(parents=True, exist_ok=True)
     buckets: List[List[Dict[str, Any]]] = [jobs[k::nproc] for k in range(nproc)]
     state = []
     for k, b in enumerate(buckets):
